@@ -96,7 +96,8 @@ def _records(nodes, depth, compression, out_recs, out_chans, counter):
             if m.get("density") is not None:
                 params = MaskParameters(user_mask_density=int(m["density"]))
             rec.mask_data = MaskData(top=mt, left=ml, bottom=mb, right=mr, background_color=int(m.get("bg", 0)),
-                                     flags=MaskFlags(mask_disabled=bool(m.get("disabled", False))), parameters=params)
+                                     flags=MaskFlags(mask_disabled=bool(m.get("disabled", False)),
+                                                     parameters_applied=params is not None), parameters=params)
             infos.append(ChannelInfo(id=ChannelID.USER_LAYER_MASK, length=2))
             chans.append(_chan(_bytes(m["data"], 8), mr - ml, mb - mt, 8, compression))
         rec.channel_info = infos
